@@ -14,10 +14,14 @@ Three observations per input (case kinds of harness/h-render and ocaml/drv_svg.m
            spec_runs under the configured defaults: invert swapped against them, the
            documented class names); the spec side abstains where C07's link
            (model runs = spec_runs) does not hold;
-  svgraw   the real bytes against svg_print (svg_doc ..), byte for byte; the two
-           quantities that depend on unicode_width (the width attribute, the length
-           of every background fill) are read off the real output in a first stage
-           and handed to the model as its oracle.
+  svgraw   the real bytes against the model's whole rendering (Model/SvgWidth.v
+           svg_m_render_uw), byte for byte; the quantities that depend on unicode_width
+           (the width attribute, the length of every background fill) are COMPUTED by
+           the translated crate (Generated/UnicodeWidthFn.v), nothing is read off the
+           real output any more;
+  uwidth   UnicodeWidthStr::width of the real crate against the extracted translation, on
+  uwchars  every text of the streams + directed Unicode sequences; UnicodeWidthChar::width
+           of every code point 0 .. 0x10FFFF (272 cases of 4096).
 """
 from .. import core, gen, sgrgen, svgparse
 from ..runner import Prop
@@ -191,6 +195,41 @@ def invert_defaults(rng):
     return "".join(out)
 
 
+# unicode-width: the sequences its look-ahead machine treats specially (tables.rs width_in_str), around their boundaries
+UW_ATOMS = (["\r", "\n", "a", " ", "#", "*", "0", "9", "\u00a0", "\u00a1", "\u200d", "\ufe0f", "\ufe0e", "\u20e3", "\u0338", "\u034f", "\u0301",
+             "\u05d0", "\u05dc", "\u0644", "\u0622", "\u0627", "\u06b5", "\u0882", "\u064b", "\u0605", "\u0890", "\u08e2", "\u070f",
+             "\u17d2", "\u1780", "\u17af", "\u17a4", "\u17d8", "\u17b4", "\u1a10", "\u1a15", "\u1a17", "\u2d31", "\u2d65", "\u2d6f", "\u2d7f",
+             "\ua4f8", "\ua4fb", "\ua4fc", "\ua4fd", "\U00010c03", "\U00010c32", "\u115f", "\u1160", "\u11a8", "\ua8fa", "\u0cc0", "\u1b3b",
+             "\U0001f1e6", "\U0001f1fa", "\U0001f1f8", "\U0001f1ff", "\U0001f3fb", "\U0001f3ff", "\U0001f44d", "\U0001f468", "\U0001f469", "\U0001f466",
+             "\U0001f3f4", "\U000e0067", "\U000e0062", "\U000e0065", "\U000e006e", "\U000e0030", "\U000e0039", "\U000e007f", "\U000e0061", "\U000e007a",
+             "\u2764", "\u231a", "\u23e9", "\u2614", "\u2b50", "\u26a1", "\u2603", "\u2122", "\U0001f004", "\U0001f200", "\U0001f600", "\U0001f9d1", "\U0001fa70",
+             "\u4e2d", "\uff21", "\u3000", "\u00ad", "\u2060", "\U000e0100", "\U000e01ef", "\ufe00", "\u180b", "\u180f", "\ud7ff", "\ue000", "\U0010ffff", "\x00", "\x7f", "\x9f"])
+UW_FIXED = ["\U0001f468\u200d\U0001f469\u200d\U0001f467\u200d\U0001f466", "\U0001f1fa\U0001f1f8", "\U0001f1fa\U0001f1f8\U0001f1e6", "#\ufe0f\u20e3", "1\ufe0f\u20e3\u200d\U0001f600",
+            "\U0001f3f4\U000e0067\U000e0062\U000e0065\U000e006e\U000e0067\U000e007f", "\U0001f3f4\U000e0067\U000e0062\U000e0065\U000e006e\U000e0067\U000e007f\u200d\U0001f600",
+            "\U0001f44d\U0001f3fb", "\u2764\ufe0f", "\u2764\ufe0e", "\u231a\ufe0e", "\U0001f004\ufe0e", "\u0644\u0627", "\u0644\u064b\u0627", "\u05d0\u200d\u05dc", "\u1780\u17d2\u1780",
+            "\u1a15\u1a17\u200d\u1a10", "\u2d31\u2d7f\u2d31", "\u2d31\u200d\u2d31", "\ua4f8\ua4fc", "\U00010c32\u200d\U00010c03", "\r\n", "\n\r", "\r\r\n", "", "<\u0338",
+            "\U0001f1fa\u200d\U0001f1f8\U0001f1fa\U0001f1f8\U0001f1fa", "\U0001f600\u200d\U0001f1fa\U0001f1f8\U0001f1fa\U0001f1f8"]
+
+
+def uw_directed(rng, n):
+    out = list(UW_FIXED)
+    out += [a + b for a in UW_ATOMS[:40] for b in ("\u200d", "\ufe0f", "\ufe0e")]
+    for _ in range(n):
+        k = rng.randrange(4)
+        if k == 0:
+            out.append("".join(rng.choice(UW_ATOMS) for _ in range(rng.randrange(1, 7))))
+        elif k == 1:
+            t = rng.choice(UW_FIXED)
+            i = rng.randrange(len(t) + 1)
+            out.append(t[:i] + rng.choice(UW_ATOMS) + t[i:])
+        elif k == 2:
+            out.append(rng.choice(UW_FIXED) + rng.choice(UW_FIXED))
+        else:
+            out.append("".join(chr(rng.choice([rng.randrange(0x20, 0x3000), rng.randrange(0x1F000, 0x1FB00), rng.randrange(0xE0000, 0xE0200), rng.randrange(0x110000)]))
+                               for _ in range(rng.randrange(1, 5))).encode("utf-8", "ignore").decode("utf-8"))
+    return [t for t in out if all(not 0xD800 <= ord(c) <= 0xDFFF for c in t)]
+
+
 def configs(rng, n_random_palettes):
     pals = ["vga", "win10"] + ["".join("%02x" % rng.randrange(256) for _ in range(48)) for _ in range(n_random_palettes)]
     return pals
@@ -200,7 +239,7 @@ class C14(Prop):
     pid = "C14"
     prop_file = "Props/C14.v"
     module = "Props.C14"
-    gen_deps = ["Table", "Style", "Palette", "Svg", "ParserFn", "WinconFn", "LossyFn", "SvgFn", "HtmlEscapeFn"]
+    gen_deps = ["Table", "Style", "Palette", "Svg", "ParserFn", "WinconFn", "LossyFn", "SvgFn", "HtmlEscapeFn", "UnicodeWidthFn"]
     harness = ("h-render", "hrender")
     nontrivial_rule = ("cases: C07's in-grammar styled texts salted with XML specials and line ends; directed texts (XML-special characters and look-alike markup, "
                        "wide / zero-width / boundary characters, C0 controls that are executed but not printed, LF / CR LF / empty lines / CR separated from LF by a "
@@ -214,7 +253,11 @@ class C14(Prop):
                "the model's svg_encode_text on every byte string and, through UTF-8, on every code-point string (Proofs/HtmlEscapeGen.v, "
                "c14_translated_htmlescape_*); trusted there: the macro expander, a &str / String / Cow<str> read as its UTF-8 bytes (from_utf8_unchecked, "
                "String::from_utf8_unchecked, Cow::from = identities), Vec::extend_from_slice = append; the byte comparison stays as the second tie",
-               "third-party unicode-width: an oracle (width attribute, length of background fills) that is not compared",
+               "third-party unicode-width: NOT an oracle any more -- `<str as UnicodeWidthStr>::width` and everything it reaches (tables.rs) is translated on every run from "
+               "the registry source of the version Cargo.lock pins (tools/gen_fn_unicodewidth.py), proved panic-free, and the svg model computes the width attribute and the "
+               "background fills with it; trusted there: the registry copy is what cargo links (tools/thirdparty.py), core's binary_search_by as bisection on lists proved sorted "
+               "(only is_ok / is_err are used), 64-bit usize in wrapping_add_signed; still a parameter of the theorems: the f64 expression (x as f64 * 8.4).ceil(), which the "
+               "correspondence driver evaluates as ceil(42 x / 5) and the byte comparison checks",
                "expat (Python binding) as the independent XML parser; vlib/svgparse.py (structure recovery from parse events)"]
     assumptions = ["visible text consists of XML 1.0 characters (no U+000C, U+FFFE, U+FFFF); the input is a Rust &str (UTF-8)",
                    "the link from the model's runs to the SGR specification is C07's (in-grammar SGR sequences)"]
@@ -242,18 +285,16 @@ class C14(Prop):
                 fg, bg = DEFAULTS[0] if rng.randrange(3) == 0 and not name.startswith("invert") else rng.choice(DEFAULTS[1:] if name.startswith("invert") else DEFAULTS)
                 flag = rng.randrange(2)
                 cases.append("%s %s %s %d %s" % (pal, fg, bg, flag, gen.hexs(list(s.encode("utf-8")))))
-            # first stage: the oracle quantities (unicode_width) from the real output
-            raw = core.run_parallel([exe], ["svg " + c for c in cases], "C14o")
+            # (no first stage any more: the width-dependent quantities are computed by the translated unicode-width)
             lines = []
-            for c, r in zip(cases, raw):
-                try:
-                    width, fills = svgparse.oracle(bytes.fromhex(r))
-                except ValueError:
-                    width, fills = 0, {}
-                fl = ",".join("%s=%d" % (k.hex(), v) for k, v in sorted(fills.items()) if k) or "-"
-                lines += ["svgdoc " + c, "svgtext " + c, "svgcls " + c, "svgraw %s %d %s" % (c, width, fl)]
+            for c in cases:
+                lines += ["svgdoc " + c, "svgtext " + c, "svgcls " + c, "svgraw " + c]
             if lines:
                 yield name, lines
+            # unicode-width by itself on the same texts (escape sequences and all: any &str is in its domain)
+            yield "unicode-width:" + name, sorted(set("uwidth " + c.split(" ")[4] for c in cases))
+        yield "unicode-width:directed-sequences", sorted(set("uwidth " + gen.hexs(list(t.encode("utf-8"))) for t in uw_directed(rng, 4000 if tier == "thorough" else 1500)))
+        yield "unicode-width:every-code-point", ["uwchars %d 4096" % lo for lo in range(0, 0x110000, 4096)]
 
     def nontrivial(self, line, impl):
         if not line.startswith("svgdoc "):
